@@ -71,13 +71,18 @@ DRIVERS["D13"] = dict(
 # D2's traffic with both TSN spaces about to wrap (the initial TSN is random: this is what 1 connection in 2^30 starts with)
 DRIVERS["D14"] = dict(DRIVERS["D2"], tsn={"A": 2 ** 32 - 2, "B": 2 ** 32 - 3})
 
+# a reliable channel next to a lifetime-limited one used in the same instant (C06's P4): whatever happens to the timed
+# channel's messages, the reliable one's are all delivered in order
+from props import c06 as _c06     # noqa: E402
+DRIVERS["D15"] = _c06.DRIVERS["P4"]
+
 
 def scenario(name):
     return C.make_factory(DRIVERS[name]), C.SctpOracle(safety=True, liveness=False), C.default_signature
 
 
-QUICK = [("D1", 2), ("D2", 2), ("D3", 2), ("D4", 2), ("D5", 2), ("D8", 1), ("D9", 1), ("D10", 2), ("D11", 2), ("D12", 2), ("D13", 2), ("D14", 2)]
-THOROUGH = [("D1", 2), ("D2", 3), ("D3", 3), ("D4", 4), ("D5", 3), ("D8", 2), ("D9", 2), ("D10", 3), ("D11", 3), ("D12", 3), ("D13", 3), ("D14", 3)]
+QUICK = [("D1", 2), ("D2", 2), ("D3", 2), ("D4", 2), ("D5", 2), ("D8", 1), ("D9", 1), ("D10", 2), ("D11", 2), ("D12", 2), ("D13", 2), ("D14", 2), ("D15", 2)]
+THOROUGH = [("D1", 2), ("D2", 3), ("D3", 3), ("D4", 4), ("D5", 3), ("D8", 2), ("D9", 2), ("D10", 3), ("D11", 3), ("D12", 3), ("D13", 3), ("D14", 3), ("D15", 3)]
 
 
 def run(tier, seed):
